@@ -12,6 +12,7 @@ mod limiter;
 mod rpcc;
 mod query;
 mod service;
+mod glue;
 
 fn main() {
     let args: Vec<String> = std::env::args().skip(1).collect();
@@ -25,6 +26,10 @@ fn main() {
     }
     if std::env::var("VERIF_LOG").is_ok() {
         let _ = tracing_subscriber::fmt().with_env_filter(tracing_subscriber::EnvFilter::new(std::env::var("VERIF_LOG").unwrap())).with_writer(std::io::stderr).try_init();
+    } else {
+        // log statements are code: with every level enabled (written to a sink) the field expressions
+        // of the crate's trace!/debug!/warn! lines are evaluated on every path the harness drives
+        let _ = tracing_subscriber::fmt().with_max_level(tracing::Level::TRACE).with_writer(std::io::sink).try_init();
     }
     match args[0].as_str() {
         "hnd" => hnd::main(&args[1..]),
@@ -38,6 +43,7 @@ fn main() {
         "rpcc" => rpcc::main(&args[1..]),
         "query" => query::main(&args[1..]),
         "service" => service::main(&args[1..]),
+        "glue" => glue::main(&args[1..]),
         x => {
             eprintln!("unknown component {}", x);
             std::process::exit(2);
